@@ -1023,6 +1023,41 @@ func (w *world) search(o *vh.Out, r *vh.Rng, rq request) {
 		o.Fail("leaf-error", err.Error(), "")
 		return
 	}
+	// formula lines: the hybrid expressions generated from text.go / flat.go, evaluated by the driver on each leaf's
+	// reported ranking value (score / distance) and compared with the leaf's real _hybridScore
+	var walk func(n *qnode)
+	walk = func(n *qnode) {
+		for _, s := range n.subs {
+			walk(s)
+		}
+		var wt *float32
+		switch {
+		case n.q.Text != nil:
+			wt = n.q.Text.Weight
+		case n.q.VectorFlat != nil:
+			wt = n.q.VectorFlat.Weight
+		default:
+			return
+		}
+		wf := "-"
+		if wt != nil {
+			wf = bits(*wt)
+		}
+		for i, x := range n.res {
+			if i >= 3 {
+				break
+			}
+			v := x.Score
+			if n.kind == "flat" {
+				v = x.Distance
+			}
+			if v == nil || *v != *v || x.HybridScore != x.HybridScore {
+				continue
+			}
+			o.Emit("hyb-"+n.kind, fmt.Sprintf("hyb %s %s %s", n.kind, wf, bits(*v)), bits(x.HybridScore), true)
+		}
+	}
+	walk(rq.tree)
 	sr := rq.sr()
 	reqJSON, _ := json.Marshal(sr)
 	res, err := w.s.SearchPoints(sr)
